@@ -29,6 +29,11 @@ func (fx *FnCtx) globalInitFacts() {
 		}
 	}
 	_ = P
+	// each sentinel is the result of its own errors.New / fmt.Errorf call: distinct allocations, distinct values
+	if len(fx.sentinels) > 1 {
+		fx.assumeDef(app("Bool", "distinct", fx.sentinels...))
+		fx.notes["package-level error sentinels initialised by separate errors.New/fmt.Errorf calls are pairwise distinct"] = true
+	}
 }
 
 func (fx *FnCtx) oneGlobal(g *ssa.Global) {
@@ -66,6 +71,9 @@ func (fx *FnCtx) oneGlobal(g *ssa.Global) {
 								gname := "G$" + g.Pkg.Pkg.Name() + "." + g.Name()
 								gv := fx.entry.getHeap(P, gname, "Iface")
 								fx.assumeDef(not(eq(app("Int", "i_typ", gv), Term{"0", "Int"})))
+								// allocated by package initialisation, i.e. before this invocation started
+								fx.assumeDef(and(app("Bool", "<", Term{"0", "Int"}, app("Int", "i_val", gv)), app("Bool", "<", app("Int", "i_val", gv), Term{"next0", "Int"})))
+								fx.sentinels = append(fx.sentinels, gv)
 								fx.notes[fmt.Sprintf("%s.%s is initialised by %s.%s and never reassigned: non-nil", g.Pkg.Pkg.Name(), g.Name(), id.Name, se.Sel.Name)] = true
 							}
 						}
